@@ -159,25 +159,26 @@ func (r *Resolver) AutoTA() {
 
 	tombstones, err := readTombstones(tombstonePath)
 	if err != nil {
-		// Distinguish "transient inability to read" from "actual
-		// corruption". A sharing violation on Windows (concurrent
-		// writer renaming over the file) or a permission hiccup is
-		// not the same as a malformed gob payload. We only fail
-		// closed when we successfully read bytes that don't decode
-		// — readTombstones surfaces that as errCorruptTombstones.
-		// Other open errors leave us with an empty in-memory map
-		// and the next AutoTA tick (or a process restart in the
-		// non-transient case) can re-load.
+		// The tombstone file exists but cannot be used, either because
+		// its bytes don't decode (errCorruptTombstones) or because it
+		// cannot be opened or read at all. In both cases the set of
+		// permanently revoked keys is unknown: proceeding with an empty
+		// map would let a revoked key that is still configured (or
+		// still Valid in a stale state file) back into r.rootKeys, and
+		// the write at the end of this run would replace the durable
+		// tombstones with the incomplete in-memory set. Fail closed
+		// and leave both files untouched; a later tick re-loads them
+		// once the file is readable again.
 		if errors.Is(err, errCorruptTombstones) {
 			zlog.Error("Trust anchor tombstones file corrupted — clearing in-memory trust set and aborting refresh", "path", tombstonePath, "error", err.Error())
-			r.Lock()
-			r.rootKeys = nil
-			r.Unlock()
-			refreshResult = taRefreshPersistenceError
-			return
+		} else {
+			zlog.Error("Trust anchor tombstones file unreadable — clearing in-memory trust set and aborting refresh", "path", tombstonePath, "error", err.Error())
 		}
-		zlog.Warn("Trust anchor tombstones file unreadable — proceeding with empty in-memory tombstones", "path", tombstonePath, "error", err.Error())
-		tombstones = make(Tombstones)
+		r.Lock()
+		r.rootKeys = nil
+		r.Unlock()
+		refreshResult = taRefreshPersistenceError
+		return
 	}
 
 	// Copy legacy Revoked/Removed entries into the material-keyed
